@@ -279,6 +279,9 @@ def main(run: Run):
     run_configs(run, __name__, cfgs)
     from . import shadow_l1
     shadow_l1.add_termination(run)
+    from . import C19_frame
+    from ..common import REPO
+    C19_frame.add_to(run, REPO)
     return run.finish(
         explanation="Runtime contracts on construction/elaboration evaluated natively on enumerated configurations of every "
                     "component class (three elaborations of one instance, RTLIL compared, memory map compared), with a termination "
